@@ -260,7 +260,7 @@ def monitor_only(ctx, driver, monitor_prefixes, cov_key, timeout=7200):
 
 def prog_C18(ctx):
     node_tr = list(NODE_TRUSTED)
-    generic(ctx, ['Dc4bcVerif.Props.C18', 'Dc4bcVerif.Props.C18Fsm', 'Dc4bcVerif.Props.C18Node', 'Dc4bcVerif.Props.C18Reinit', 'Dc4bcVerif.Props.C18Air'], 'nodediff', 'node', ['C18'], node_tr, NODE_RULE, cov_from_stats=node_cov)
+    generic(ctx, ['Dc4bcVerif.Props.C18', 'Dc4bcVerif.Props.C18Fsm', 'Dc4bcVerif.Props.C18Node', 'Dc4bcVerif.Props.C18Reinit', 'Dc4bcVerif.Props.C18ReinitReject', 'Dc4bcVerif.Props.C18Air'], 'nodediff', 'node', ['C18'], node_tr, NODE_RULE, cov_from_stats=node_cov)
     ev = ctx.cov.get('evaluations', 0)
     res = run_linediff(ctx, 'sszdiff', 'ssz')
     if res is not None:
